@@ -99,6 +99,11 @@ def finish(ck: Check, tier: str, t0: float, explanation: str, assumptions: list[
         print(f"   {r}: {by_rule[r]} instance(s){'' if not bad else f', {bad} VIOLATED'}")
     for s in ck.notes:
         print(f"   note: {s}")
+    rep0 = getattr(ck.prog.repo, "inline_report", {}) or {}
+    if rep0.get("new") or rep0.get("renamed"):
+        print(f"   normalised: {len(rep0.get('new', []))} function(s) that the reference tree does not have "
+              f"({len(rep0.get('inlined', []))} call(s) inlined, {len(rep0.get('opaque', []))} kept as calls), "
+              f"{len(rep0.get('renamed', {}))} renamed function(s) mapped back")
     replay_dir = VERIF / "evidence" / "replay"
     lines = []
     for i, o in enumerate(new_viol):
@@ -114,6 +119,14 @@ def finish(ck: Check, tier: str, t0: float, explanation: str, assumptions: list[
     wall = time.time() - t0
     if write_evidence:
         stats = ck.prog.repo.stats()
+        # what the normalising pre-pass did to the tree before the rules looked at it
+        rep_ = getattr(ck.prog.repo, "inline_report", {}) or {}
+        stats["normalisation"] = {
+            "functions_not_in_reference_tree": rep_.get("new", []),
+            "inlined_into_callers": rep_.get("inlined", []),
+            "kept_as_calls": rep_.get("opaque", []),
+            "renamed_back_to_reference_names": rep_.get("renamed", {}),
+        }
         samples = [o.as_dict() for o in ck.obs[:40]]
         # make sure every rule is represented among the samples
         seen = {s["rule"] for s in samples}
